@@ -16,6 +16,8 @@ GNext ==
             \/ NewAtom(mm_, dd_) /\ hist' = Append(hist, <<"Atom", mm_, dd_, 0>>)
             \/ Shell(mm_, dd_) /\ hist' = Append(hist, <<"Shell", mm_, dd_, 0>>)
             \/ AtomOp(mm_, dd_) /\ hist' = Append(hist, <<"AtomOp", mm_, dd_, 0>>)
+            \/ NewAtomRot(mm_, dd_) /\ hist' = Append(hist, <<"AtomRot", mm_, dd_, 0>>)
+            \/ NewMol(mm_, dd_) /\ hist' = Append(hist, <<"Mol", mm_, dd_, 0>>)
 GSpec == GInit /\ [][GNext]_gvars
 Emit == Len(hist) = MaxLen => PrintT(<<"BEH", hist>>)
 =============================================================================
